@@ -504,7 +504,7 @@ def usetprtTable (mask : SetName → Nat) (tbl : List Row) (printsets : Option (
   let pv := (Locate.listIntersect prtAll req)
   let names := pv.2.filterMap (req[·]?)
   let cols := pv.1.filterMap (prtAll[·]?) |>.map fun s => memberCol (mask s) (tbl.map (·.2.2))
-  let rows := tbl.zipIdx.map fun (r, i) => (r.1, r.2.1, i + 1, cols.map fun c => c.getD i 0)
+  let rows := tbl.zipIdx.map fun p => (p.1.1, p.1.2.1, p.2 + 1, cols.map fun c => c.getD p.2 0)
   let kept := rows.filter fun r => r.2.2.2.any (· != 0)
   if kept = [] then none else some (names, kept)
 
